@@ -53,6 +53,12 @@ class T(Sym):
     def conj(self):
         return T(self._name + ".conj()", [flip(l) for l in self.legs], not self.is_conj)
 
+    def reshape(self, *a):
+        return self
+
+    def ravel(self):
+        return self
+
     def squeeze(self):
         return T(self._name, [l for l, d in zip(self.legs, self.shape) if not (isinstance(d, int) and d == 1)], self.is_conj)
 
